@@ -38,7 +38,7 @@ type c03HdrV struct {
 }
 
 type c03HdrCfg struct {
-	dateMode  int   // 0: YYYY-MM-DD only, no secondary date; 1: 12 shapes x {none, same shape, other separator}; 2: 12 x (none + 12)
+	dateMode  int   // 0: YYYY-MM-DD only, no secondary date; 1: 12 shapes x {none, same shape, other separator}; 2: 12 x (none + 12); 3: YYYY-MM-DD x {none, same shape}
 	statusN   int   // 1: no status; 3: none, *, !
 	nCode     int   // longest code (0: no code)
 	plainCode bool  // code characters are lower-case letters and digits only
@@ -86,6 +86,11 @@ func verifC03Header(cfg c03HdrCfg) {
 			d2, hasD2 = c03MkDate("d2", sh), true
 		case 2:
 			d2, hasD2 = c03MkDate("d2", (sh+5)%12), true
+		}
+	case 3:
+		d1 = c03MkDate("d1", 3)
+		if zzverif.Choice("d2", 2) == 1 {
+			d2, hasD2 = c03MkDate("d2", 3), true
 		}
 	default:
 		d1 = c03MkDate("d1", zzverif.Choice("d1.shape", 12))
@@ -210,8 +215,8 @@ func verifC03Header(cfg c03HdrCfg) {
 
 var c03AllCmnts = []int{-1, 0, 1, 2, 3, 4, 5}
 
-// quick tier: five focuses, each varies one part of the line fully and keeps the others small
-const c03HeaderFocuses = 5
+// quick tier: six focuses, each varies one part of the line fully and keeps the others small
+const c03HeaderFocuses = 6
 
 func c03HeaderFocus(f int) c03HdrCfg {
 	switch f {
@@ -223,6 +228,8 @@ func c03HeaderFocus(f int) c03HdrCfg {
 		return c03HdrCfg{statusN: 1, descKinds: 2, nText: 1, cmnts: c03AllCmnts, nCmnt: 2, wsN: 3, wideFirst: -1}
 	case 3: // CRLF after every kind of last token
 		return c03HdrCfg{statusN: 3, nCode: 1, descKinds: 4, nText: 1, cmnts: []int{-1, 0, 1}, nCmnt: 1, wsN: 1, crlf: 2}
+	case 5: // every optional part present or absent independently of the others (secondary date x status x code x description x comment)
+		return c03HdrCfg{dateMode: 3, statusN: 3, nCode: 1, plainCode: true, descKinds: 4, nText: 1, cmnts: []int{-1, 0}, nCmnt: 1, wsN: 2, wideFirst: -1}
 	default: // code
 		return c03HdrCfg{statusN: 2, nCode: 3, descKinds: 2, nText: 1, cmnts: []int{-1}, wsN: 2, wideFirst: -1}
 	}
